@@ -1,20 +1,26 @@
 (* Props/C04.v — rollback restores exactly the previously committed state, repeatedly (raw vectors; code as
-   of 533ea26).  Statements only.
-   `disciplined k h` (RvFindings.op_disciplined): edits between commits; plain write/flush/re-import only when
-   no edit was issued since the last commit; increasing stamps; rollbacks start from a committed state.
-   Status: the full statement is REFUTED by the one remaining known class (findings 3 and 4: rollback of a
-   truncating commit, then push / delete of a restored slot, then write() -> WriteOutOfBounds with data loss).
-   Proved: the bounded statement (all 177 156 histories up to length 5 over 11 operations, retention 1 and 2,
-   outside that class).  NOT closed: the unbounded C04_rollback_step / C04_chain / C04_rollback_before /
-   C04_continuation (= C04_outside_known_full).  What is missing is the induction with R5/R6 of DESIGN.md B.1:
-   (a) a ghost "underlying value" per retained snapshot (the value under a deleted slot matters for older
-   snapshots), (b) the baseline invariant `prev_* + disk describe the top snapshot` preserved by every edit
-   (disk unchanged between commits under the discipline), (c) serialize -> parse instantiated through
-   C16_record_roundtrip (needs lengths < 2^64), (d) the undo algebra (insert_run / apply_mods / all_keys).
-   Already available for it: C03_step_refines applies unchanged to every state after a rollback that does
-   not lengthen the vector (such states satisfy Inv), C16_fail_single, C16_rollback_before_*_reach. *)
-From Anydb Require Import Common.Base Vec.RvModel Vec.RvRollback Vec.RvSpec Vec.RvInst Vec.RvFindings
-  Vec.RvSmallScope Vec.RvStatements.
+   of 397122a).  Statements only.
+   UNBOUNDED (all element types, all retention settings k > 0, all histories of the strict class), Vec/RvChain.v:
+     C04_rollback_step    one rollback from a committed state lands on the previous committed snapshot (contents,
+                          deleted slots, stamp) and re-establishes the whole invariant K (baseline, chain of records,
+                          directory); with no retained snapshot it is refused with the vector unchanged
+     C04_chain            n successive rollbacks, for every n up to the number of retained snapshots
+     C04_rollback_before  ends exactly where the reference ends and returns that stamp
+     C04_continuation     every strict history agrees with the reference after every step: results, contents incl.
+                          deleted slots, stamps — edits, commits, rollbacks, rollback_before in any order
+   K s a: R s a + a ghost level per retained snapshot (underlying values also under deleted slots, deleted set,
+   stamp, lowest admissible stored length) + "prev_* over the disk describe the top level" + the change directory is
+   the chain of valid records (RecOK: each carries exactly what separates two adjacent levels) followed by records
+   above the current stamp.  Strict class (RvChain.strict): edits (push, truncate, update, delete, take, fill),
+   commits with increasing stamps whose record satisfies valid_record (all lengths below 2^64), rollback /
+   rollback_before from committed states that do not lengthen the vector (= outside
+   KnownClass_rollback_of_truncation, findings 3/4, whose two `_refuted` witnesses stay).  NOT in the strict class,
+   hence still only in the bounded C04_continuation_partial (and in C03 for their own effect): plain
+   write/flush/re-import between commits when nothing was edited, reset, stamped_write without a record.
+   rollback_chain / C16_count need no non-lengthening hypothesis (a lengthening rollback still lands on the right
+   snapshot; only the continuation after it is the known finding). *)
+From Anydb Require Import Common.Base Common.LE Vec.RvBase Vec.RvChange Vec.RvChangeProofs Vec.RvModel Vec.RvRollback Vec.RvSpec
+  Vec.RvRollbackProofs Vec.RvRefine Vec.RvChain Vec.RvInst Vec.RvFindings Vec.RvSmallScope Vec.RvStatements.
 
 Definition C04_full : Prop := forall k0 h, disciplined k0 h = true -> agree k0 h = true.
 Definition C04_outside_known_full : Prop :=
@@ -43,3 +49,64 @@ Theorem C04_continuation_partial :
   disciplined k0 h = true -> KnownClass_rollback_of_truncation k0 h = false -> agree k0 h = true.
 Proof. exact C04_small_scope. Qed.
 Print Assumptions C04_continuation_partial.
+
+Theorem C04_rollback_step :
+  forall (T : Type) (tsize : N) (enc : T -> list N) (dec : list N -> T),
+  0 < tsize -> (forall v : T, len (enc v) = tsize) -> (forall v : T, dec (enc v) = v) ->
+  forall (s : rv) (a : sv T), K tsize enc dec s a -> Clean s ->
+  match committed a with
+  | [] => rv_rollback tsize dec s = (s, Err EIO)
+  | Sn :: _ =>
+    exists s' : rv, rv_rollback tsize dec s = (s', Ok tt) /\ K tsize enc dec s' (fst (sv_rollback a)) /\ Clean s' /\
+      view tsize dec s' = sn_contents Sn /\ stamp s' = sn_stamp Sn /\
+      (Inv s -> len (sn_contents Sn) <= slen a -> Inv s')
+  end.
+Proof. exact @rollback_step. Qed.
+Print Assumptions C04_rollback_step.
+
+Theorem C04_chain :
+  forall (T : Type) (tsize : N) (enc : T -> list N) (dec : list N -> T),
+  0 < tsize -> (forall v : T, len (enc v) = tsize) -> (forall v : T, dec (enc v) = v) ->
+  forall (n : nat) (s : rv) (a : sv T), K tsize enc dec s a -> Clean s -> (n <= length (committed a))%nat ->
+  exists s' : rv, rollbacks_ok tsize dec n s s' /\ K tsize enc dec s' (rolln n a) /\ Clean s' /\
+    view tsize dec s' = contents (rolln n a) /\ stamp s' = sstamp (rolln n a).
+Proof. exact @rollback_chain. Qed.
+Print Assumptions C04_chain.
+
+Theorem C04_rollback_before :
+  forall (T : Type) (tsize : N) (enc : T -> list N) (dec : list N -> T),
+  0 < tsize -> (forall v : T, len (enc v) = tsize) -> (forall v : T, dec (enc v) = v) ->
+  forall (s : rv) (a : sv T) (target : N), K tsize enc dec s a -> Clean s -> changes s <> None ->
+  let a' := sv_rollback_before (S (length (committed a))) target a in
+  exists s' : rv, rv_rollback_before tsize dec target s = (s', Ok (sstamp a')) /\ K tsize enc dec s' a' /\ Clean s' /\
+    view tsize dec s' = contents a' /\ (Inv s -> nonlen (slen a) (committed a) -> Inv s').
+Proof. exact @rollback_before_spec. Qed.
+Print Assumptions C04_rollback_before.
+
+Theorem C04_commit_step :
+  forall (T : Type) (tsize : N) (enc : T -> list N) (dec : list N -> T), 0 < tsize ->
+  forall (s : rv) (a : sv T) (st : N), K tsize enc dec s a -> Inv s -> sstamp a < st ->
+  valid_record enc (fst (build_record tsize dec s)) ->
+  let s' := fst (rv_commit tsize enc dec st s) in
+  let a' := fst (sstep a (Commit st)) in
+  snd (rv_commit tsize enc dec st s) = Ok tt /\ K tsize enc dec s' a' /\ Inv s' /\ Clean s'.
+Proof. exact @commit_step. Qed.
+Print Assumptions C04_commit_step.
+
+Theorem C04_continuation_from_any_state :
+  forall (T : Type) (tsize : N) (enc : T -> list N) (dec : list N -> T),
+  0 < tsize -> (forall v : T, len (enc v) = tsize) -> (forall v : T, dec (enc v) = v) ->
+  forall (h : list op) (edited : bool) (s : rv) (a : sv T),
+  K tsize enc dec s a -> Inv s -> (edited = false -> Clean s) -> strict tsize enc dec edited s a h ->
+  agrees tsize enc dec s a h /\ K tsize enc dec (run tsize enc dec s h) (srun a h) /\
+  Inv (run tsize enc dec s h) /\ (final_ed edited h = false -> Clean (run tsize enc dec s h)).
+Proof. exact @strict_agree. Qed.
+Print Assumptions C04_continuation_from_any_state.
+
+Theorem C04_continuation :
+  forall (T : Type) (tsize : N) (enc : T -> list N) (dec : list N -> T),
+  0 < tsize -> (forall v : T, len (enc v) = tsize) -> (forall v : T, dec (enc v) = v) ->
+  forall (k0 : N) (h : list op), 0 < k0 ->
+  strict tsize enc dec false (rv_init k0) (sv_init k0) h -> agrees tsize enc dec (rv_init k0) (sv_init k0) h.
+Proof. exact @continuation. Qed.
+Print Assumptions C04_continuation.
